@@ -59,23 +59,23 @@ func Fixtures() []Fixture {
 		{Name: "F0-empty"},
 		{Name: "F1-one-vertex", Elems: []gmodel.Elem{v("a", "P", map[string]any{"n": 1.0})}},
 		{Name: "F2-loop-parallel-isolated", Elems: []gmodel.Elem{
-			v("a", "P", map[string]any{"n": 1.0, "s": "x"}), v("b", "Q", map[string]any{"n": 2.0}), v("c", "P", nil), v("d", "Q", nil),
+			v("a", "P", map[string]any{"n": 1.0, "s": "x"}), v("b", "PQ", map[string]any{"n": 2.0}), v("c", "P", nil), v("d", "PQ", nil),
 			e("e1", "a", "a", "x", nil), e("e2", "a", "b", "x", nil), e("e3", "a", "b", "y", nil), e("e4", "b", "c", "x", nil)}},
 		{Name: "F3-dangling-endpoints", Elems: []gmodel.Elem{
-			v("a", "P", nil), v("b", "Q", nil),
+			v("a", "P", nil), v("b", "PQ", nil),
 			e("e1", "a", "zz", "x", nil), e("e2", "zz", "b", "y", nil), e("e3", "a", "b", "x", nil)}},
 		{Name: "F4-nested-mixed-data", Elems: []gmodel.Elem{
 			v("a", "P", map[string]any{"n": 1.0, "s": "x", "t": []any{1.0, 2.0}, "m": map[string]any{"k": "v"}}),
 			v("b", "P", map[string]any{"n": "1", "s": "q", "t": []any{"a"}, "m": map[string]any{"k": 2.0}}),
-			v("c", "Q", map[string]any{"s": nil, "flag": true}),
+			v("c", "PQ", map[string]any{"s": nil, "flag": true}),
 			e("e1", "a", "b", "x", map[string]any{"w": 1.5}), e("e2", "b", "c", "y", nil)}},
 		{Name: "F5-shared-edge-label-both-directions", Elems: []gmodel.Elem{
-			v("a", "P", map[string]any{"n": 1.0}), v("b", "Q", map[string]any{"n": 1.0}), v("c", "P", map[string]any{"n": 2.0}),
+			v("a", "P", map[string]any{"n": 1.0}), v("b", "PQ", map[string]any{"n": 1.0}), v("c", "P", map[string]any{"n": 2.0}),
 			e("e1", "a", "b", "x", nil), e("e2", "b", "a", "x", nil), e("e3", "b", "c", "x", nil), e("e4", "c", "b", "y", nil)}},
 		// kvgraph honours the planner's "do not load" hint for edges only, so edges with properties (equal
 		// and different values, a parallel pair, one edge without data, two edge labels) get a fixture of their own
 		{Name: "F6-edge-properties", Elems: []gmodel.Elem{
-			v("a", "P", map[string]any{"w": 1.0}), v("b", "Q", map[string]any{"w": 2.0}), v("c", "P", nil),
+			v("a", "P", map[string]any{"w": 1.0}), v("b", "PQ", map[string]any{"w": 2.0}), v("c", "P", nil),
 			e("e1", "a", "b", "x", map[string]any{"w": 1.0}), e("e2", "a", "c", "x", map[string]any{"w": 2.0}), e("e3", "b", "c", "y", map[string]any{"w": 1.0}),
 			e("e4", "c", "a", "x", nil), e("e5", "a", "b", "x", map[string]any{"w": 1.0})}},
 	}
@@ -141,7 +141,7 @@ func Alphabet(core bool) []refsem.Step {
 	if core {
 		return a
 	}
-	a = append(a, st("hasLabel", "P", "Q"), st("hasLabel", "ZZ"), st("hasId", "a"), st("hasId", "zz"), st("hasKey", "n", "s"), st("hasKey", "zz"))
+	a = append(a, st("hasLabel", "P", "PQ"), st("hasLabel", "ZZ"), st("hasId", "a"), st("hasId", "zz"), st("hasKey", "n", "s"), st("hasKey", "zz"))
 	a = append(a,
 		has(gripql.Gt("n", 1.0)), has(gripql.Within("s", "x", "q")), has(gripql.Contains("t", 1.0)), has(gripql.Eq("_gid", "a")),
 		has(gripql.Eq("m.k", "v")), has(gripql.Not(gripql.Eq("n", 1.0))), has(gripql.And(gripql.Gt("n", 0.0), gripql.Lt("n", 2.0))))
